@@ -94,6 +94,11 @@ pub struct Spec {
     /// history (plain recording only): after the first recording the tree is changed by this script and recorded again
     #[serde(default)]
     pub again: Option<RunPlan>,
+    /// a separate scenario: a command whose *arguments* name files, run with or without a run directory; the command must
+    /// receive its arguments as given (0: relative name with run_dir, 1: absolute symlink with run_dir, 2: relative name
+    /// without run_dir, 3: non-normalised relative path with run_dir)
+    #[serde(default)]
+    pub argv_probe: Option<u8>,
 }
 
 fn rel(path: &[u8]) -> String {
@@ -465,7 +470,7 @@ impl Property for C18 {
          dangling), path argument lists (root, '.', './t', sub-directories, single files, overlapping, non-normalised 't/./sub//'), \
          strip-prefix lists (none, matching, overlapping prefixes of different length, non-matching, empty), hash algorithms {default, \
          sha256, sha512, both, unknown}; for in_toto_run an operation list (create, append, delete, replace a file by other bytes of the same length keeping its modification time, echo to stdout/stderr, exit k) compiled to \
-         one sh -c command; commands may end by killing themselves with SIGKILL/TERM/ABRT/SEGV/HUP (a link then must not report exit status 0) and may write 0-256 KiB to stderr and then 0-200 KiB to stdout; one in_toto_run in five is record-only (empty command), and in a third of them the products are recorded for a prefix of the path arguments only; for plain recording optionally a second recording of the same arguments in the same process after such an operation list changed the tree. Oracle: an independent walk (follows symlinks) with the harness' own SHA-256/512: every file reachable without entering a directory \
+         one sh -c command; a separate probe runs cat/readlink with arguments that name files (relative, through a symlink, non-normalised) with and without a run directory and requires the output of the command as given; commands may end by killing themselves with SIGKILL/TERM/ABRT/SEGV/HUP (a link then must not report exit status 0) and may write 0-256 KiB to stderr and then 0-200 KiB to stdout; one in_toto_run in five is record-only (empty command), and in a third of them the products are recorded for a prefix of the path arguments only; for plain recording optionally a second recording of the same arguments in the same process after such an operation list changed the tree. Oracle: an independent walk (follows symlinks) with the harness' own SHA-256/512: every file reachable without entering a directory \
          twice on one descent path must be recorded with its true digest, and any further entry must be a cyclic duplicate (reachable when a \
          directory may be entered twice) with a true digest - the statement does not say where a cyclic descent stops; two different files under one key => Err; unknown \
          algorithm => Err; in_toto_run: materials = reference snapshot before, products = snapshot after, byproducts = constructed \
@@ -500,6 +505,7 @@ impl Property for C18 {
                 algs: Algs::Default,
                 run: None,
                 again: None,
+                argv_probe: None,
             }
         });
         let op = prop_oneof![
@@ -518,12 +524,51 @@ impl Property for C18 {
             proptest::option::weighted(0.3, (proptest::collection::vec(op.clone(), 0..4), prop_oneof![3 => Just(0u8), 1 => any::<u8>()], any::<bool>(), prop_oneof![4 => Just(false), 1 => Just(true)], proptest::option::weighted(0.3, any::<u8>()), proptest::option::weighted(0.15, 0u8..5), proptest::option::weighted(0.15, (prop_oneof![Just(0u16), Just(1), Just(63), Just(64), Just(65), Just(100), Just(256)], prop_oneof![Just(0u16), Just(1), Just(64), Just(65), Just(200)]))).prop_map(|(ops, exit, run_dir_dot, no_command, product_args, kill, bulk_kib)| RunPlan { ops, exit, run_dir_dot, no_command, product_args, kill, bulk_kib })),
             proptest::option::weighted(0.3, proptest::collection::vec(op, 1..3).prop_map(|ops| RunPlan { ops, exit: 0, run_dir_dot: false, no_command: false, product_args: None, kill: None, bulk_kib: None })),
         )
-            .prop_map(|(tree, args, lstrip, algs, run, again)| Spec { tree, args, lstrip, algs, run, again })
+            .prop_map(|(tree, args, lstrip, algs, run, again)| Spec { tree, args, lstrip, algs, run, again, argv_probe: None })
             .boxed();
-        prop_oneof![12 => general, 1 => collision.boxed()].boxed()
+        let probe = (0u8..4).prop_map(|k| Spec { tree: vec![], args: vec![], lstrip: None, algs: Algs::Default, run: None, again: None, argv_probe: Some(k) });
+        prop_oneof![48 => general, 4 => collision.boxed(), 1 => probe.boxed()].boxed()
     }
     fn check(spec: &Spec, env: &mut Env) -> Outcome {
         let mut o = Outcome::new();
+        if let Some(k) = spec.argv_probe {
+            // commands x run directory x arguments that name files
+            o.class(format!("argv-probe:{}", k % 4));
+            o.nontrivial(format!("argv|{}", k % 4));
+            let case = env.fresh_dir("c18p");
+            let rd = case.join("rd");
+            std::fs::create_dir_all(&rd).unwrap();
+            std::fs::create_dir_all(case.join("sub")).unwrap();
+            std::fs::write(case.join("probe.txt"), "outer\n").unwrap();
+            std::fs::write(rd.join("probe.txt"), "inner\n").unwrap();
+            std::os::unix::fs::symlink("rd/probe.txt", case.join("lnk")).unwrap();
+            let lnk_abs = case.join("lnk").display().to_string();
+            let (cmd, run_dir, want_out, want_rv): (Vec<String>, Option<&str>, &str, i32) = match k % 4 {
+                0 => (vec!["cat".into(), "probe.txt".into()], Some("rd"), "inner\n", 0),
+                1 => (vec!["readlink".into(), lnk_abs], Some("rd"), "rd/probe.txt\n", 0),
+                2 => (vec!["cat".into(), "probe.txt".into()], None, "outer\n", 0),
+                _ => (vec!["cat".into(), "./sub/../probe.txt".into()], Some("rd"), "", 1),
+            };
+            let cmd_refs: Vec<&str> = cmd.iter().map(|s| s.as_str()).collect();
+            let old = std::env::current_dir().unwrap();
+            std::env::set_current_dir(&case).unwrap();
+            let lib = guarded(|| in_toto_run("probe", run_dir, &[], &[], &cmd_refs, None, None, None));
+            std::env::set_current_dir(&old).unwrap();
+            let _ = std::fs::remove_dir_all(&case);
+            match lib {
+                Err(pi) => o.fail(format!("C18/run/panic/{}", pi.message_class()), format!("{}:{} {}", pi.file, pi.line, pi.message), "a link or an error"),
+                Ok(Err(e)) => o.fail("C18/run/argv-probe/error", format!("Err({}) for {:?} in {:?}", e, cmd, run_dir), "a link"),
+                Ok(Ok(block)) => {
+                    if let in_toto::models::MetadataWrapper::Link(l) = &block.metadata {
+                        let bp = ByprodSpec::from_lib(&l.byproducts);
+                        if bp.stdout.as_deref() != Some(want_out) || bp.return_value != Some(want_rv) {
+                            o.fail("C18/run/command-received-other-arguments", format!("{:?} in run directory {:?}: stdout {:?}, return value {:?}", cmd, run_dir, bp.stdout, bp.return_value), format!("stdout {:?}, return value {} (the command gets its arguments as given and resolves them in its own directory)", want_out, want_rv));
+                        }
+                    }
+                }
+            }
+            return o;
+        }
         let case = env.fresh_dir("c18");
         let mut feat = Features::default();
         create_tree(&case.join("t"), &spec.tree, &mut feat);
